@@ -1,6 +1,7 @@
 """C06 - the database reflects exactly the history of declare / undeclare / tag operations.
 
-Model: coq/Model/Db.v   Theorems: coq/Props/C06.v
+Model: coq/Model/Db.v + coq/Model/DbExt.v (table text, interned tables and external files, target stack)
+Theorems: coq/Props/C06.v
 Implementation: Eups.declare / assignTag / unassignTag / undeclare / remove of the real code on two scratch
 stacks; after every operation a fresh reader (Eups(readCache=False), Database.findProducts,
 Database.getTagAssignments, os.listdir of every ups_db) lists what the files say.
@@ -8,9 +9,15 @@ Database.getTagAssignments, os.listdir of every ups_db) lists what the files say
 A case is one history:
   {"flavors": [f1, f2], "mode": "fork" | "proc" | "inst", "ops": [op, ...]}
   op = {"k": "D", "f": flavor, "s": None|"s1"|"s2", "F": force, "N": noaction, "n": product, "v": version,
-        "d": None|"A"|"B" (directory variant), "tb": None|"alt" (explicit table file), "t": None|tag}
+        "d": None|"A"|"B" (directory outside the stacks) | "H1"|"H2" (directory inside stack s1 / s2),
+        "tb": None (default table) | "alt" (other path, other text) | "same" (other path, same text as the default
+              table of that directory) | "fix" (a path that does not depend on the directory) | "none" (tablefile
+              none) | "stream" (an open file with text variant "tx": interned),
+        "L": None | [[source variant, path below the extra directory], ...] (external files), "t": None|tag}
        "A" assignTag(t, n, v)   "U" unassignTag(t, n, v|None)   "X" undeclare(n, v|None)
        "T" undeclare(n, v|None, tag=t, undeclareVersionAndTag=both)   "R" remove(n, v)
+"ro": stacks that are read-only (directory and ups_db mode 0555; the whole history then runs under uid nobody,
+every operation in a forked child), "fam": label of the generator family (histogram only).
 mode: fork = every operation in its own forked child with a new Eups; proc = one process, a new Eups per
 operation; inst = one process, one Eups instance per flavor serving several operations.
 """
@@ -35,22 +42,82 @@ MODES = ["fork", "proc", "inst"]
 
 # ------------------------------------------------------------------ canonical names
 
+DIRVARS_ALL = ["A", "B", "H1", "H2"]
+HOME = {"H1": "s1", "H2": "s2"}
+STREAMS = {"t1": "# stream one\nsetupOptional(zzz)\n", "t2": "# stream two\n", "t3": "# no newline\n# at the end"}
+EXTRAS = {"x1": "extra one\n", "x2": "extra two\n"}
+NOBODY = 65534
+
+
 def cdir(n, v, d):
     """canonical (root-independent) product directory"""
+    if d in HOME:
+        return "/%s/prod/%s-%s-H" % (HOME[d], n, v)
     return "/prod/%s-%s-%s" % (n, v, d)
 
 
 def ctable(n, v, d, tb):
-    return cdir(n, v, d) + "/ups/" + ("alt.table" if tb == "alt" else n + ".table")
+    if tb == "fix":
+        return "/prod/tables/%s-%s.table" % (n, v)
+    return cdir(n, v, d) + "/ups/" + ({"alt": "alt.table", "same": "same.table"}.get(tb) or n + ".table")
+
+
+def csrc(x):
+    return "/prod/extra/%s.txt" % x
+
+
+def ctext(n, v, d, tb):
+    """text of the static table files: distinct per path, except that same.table repeats the default table"""
+    return "# table %s\n" % ctable(n, v, d, None if tb == "same" else tb)
+
+
+def table_request(o):
+    """-> (kind, canonical argument) of the table argument of a declaration: d default, p path, n none, s stream"""
+    tb = o.get("tb")
+    if tb == "none":
+        return "n", None
+    if tb == "stream":
+        return "s", STREAMS[o.get("tx") or "t1"]
+    if tb == "fix":
+        return "p", ctable(o["n"], o["v"], None, "fix")
+    if tb in ("alt", "same") and o["d"]:
+        return "p", ctable(o["n"], o["v"], o["d"], tb)
+    return "d", None
+
+
+def static_texts(case):
+    """the files outside the databases that the history can name: canonical path -> text"""
+    out = {}
+    for o in case["ops"]:
+        if o["k"] != "D":
+            continue
+        for d in DIRVARS_ALL:
+            for tb in (None, "alt", "same"):
+                out[ctable(o["n"], o["v"], d, tb)] = ctext(o["n"], o["v"], d, tb)
+        out[ctable(o["n"], o["v"], None, "fix")] = ctext(o["n"], o["v"], None, "fix")
+    for x, t in EXTRAS.items():
+        out[csrc(x)] = t
+    return out
+
+
+def intern(text):
+    """what Eups.declare writes for a table given as a stream: print(line, end=' ') per line"""
+    return "".join(l + " " for l in text.splitlines(True))
+
+
+def extra_dir(s, f, n, v):
+    return "/%s/ups_db/%s/%s/%s" % (s, f, n, v)
 
 
 # ------------------------------------------------------------------ generator
 
-def gen_history(rng, length, flavors=None, mode=None):
+def gen_history(rng, length, flavors=None, mode=None, bias=None, ro=None, fam="rand"):
     """a random history; the specification below is run alongside so that about 70 % of the operations are valid
     for the state they meet (the rest name products, versions or tags that are not there)"""
     flavors = flavors or rng.choice(FLAVOR_PAIRS)
     mode = mode or rng.choice(MODES)
+    bias = bias or {}
+    p_tb, p_home, p_L = bias.get("tb", 0.10), bias.get("home", 0.08), bias.get("L", 0.04)
     decls, tags = {}, {}
     ops = []
     for _ in range(length):
@@ -67,6 +134,8 @@ def gen_history(rng, length, flavors=None, mode=None):
                 k = rng.choice(known)
                 o["n"], o["v"] = k[1], k[2]
                 same = decls[k][0].rsplit("-", 1)[1]
+                if same == "H":
+                    same = "H" + decls[k][0][2]
                 o["d"] = rng.choice([same, same, "A", "B", None])
                 o["t"] = rng.choice([None, "current", "stable", "beta"]) if o["d"] else rng.choice(TAGS)
             else:
@@ -74,6 +143,14 @@ def gen_history(rng, length, flavors=None, mode=None):
                 o["d"] = rng.choice(["A", "A", "A", "A", "B", None])
                 o["t"] = rng.choice([None, None, "current", "stable", "beta"])
             o["tb"] = "alt" if (o["d"] and rng.random() < 0.12) else None
+            if o["d"] and rng.random() < p_home:
+                o["d"] = rng.choice(["H1", "H2", "H2"])
+            if rng.random() < p_tb:
+                o["tb"] = rng.choice(["same", "fix", "none", "stream", "stream"])
+                if o["tb"] == "stream":
+                    o["tx"] = rng.choice(["t1", "t1", "t2", "t3"])
+            if rng.random() < p_L:
+                o["L"] = [[rng.choice(["x1", "x2"]), rng.choice(["etc/x.txt", "doc/y.txt"])]]
         elif r < 0.53:
             o["k"] = "A"
             o["t"] = rng.choice(TAGS)
@@ -118,9 +195,171 @@ def gen_history(rng, length, flavors=None, mode=None):
                 o["n"], o["v"] = k[1], k[2]
             else:
                 o["n"], o["v"] = rng.choice(NAMES), rng.choice(VERSIONS)
-        _, decls, tags = spec_step(decls, tags, o)
+        _, decls, tags = spec_step(decls, tags, o, ro=ro or [])
         ops.append(o)
-    return {"flavors": flavors, "mode": mode, "ops": ops}
+    case = {"flavors": flavors, "mode": mode, "ops": ops, "fam": fam}
+    if ro:
+        case["ro"] = list(ro)
+        case["mode"] = "fork"
+    return case
+
+
+def _D(f, n, v, d="A", tb=None, t=None, s=None, F=False, N=False, tx=None, L=None):
+    o = {"k": "D", "f": f, "s": s, "F": F, "N": N, "n": n, "v": v, "d": d, "tb": tb, "t": t}
+    if tx:
+        o["tx"] = tx
+    if L:
+        o["L"] = L
+    return o
+
+
+def _op(k, f, n, v=None, t=None, s=None, both=None, F=False, N=False):
+    o = {"k": k, "f": f, "s": s, "F": F, "N": N, "n": n, "v": v}
+    if t is not None:
+        o["t"] = t
+    if both is not None:
+        o["both"] = both
+    return o
+
+
+# the ways a declaration can name its table file, and what a redeclaration can change one at a time
+TABLE_STATES = [("default", {}), ("alt", {"tb": "alt"}), ("same", {"tb": "same"}), ("fix", {"tb": "fix"}),
+                ("none", {"tb": "none"}), ("stream", {"tb": "stream", "tx": "t1"})]
+CHANGES = [("dir", None), ("path-same-text", None), ("path-other-text", None), ("to-none", None), ("to-stream", None),
+           ("stream-text", None), ("add-ext", None), ("nothing", None)]
+
+
+def gen_forced_redeclarations(rng):
+    """every prior state of the table file x a redeclaration that changes exactly one of directory / table path (same
+    text) / table path and text / table file none / interned text / external files / nothing; forced, then the same
+    request again without force (no difference any more), then a conflicting one without force.  The prior declaration
+    sits in the first or the second stack, alone or next to the other flavor in the same version file."""
+    out = []
+    i = 0
+    for pname, pkw0 in TABLE_STATES:
+        for ch, _ in CHANGES:
+            i += 1
+            f1, f2 = rng.choice(FLAVOR_PAIRS)
+            n, v = NAMES[i % 3], VERSIONS[i % 2]
+            s = [None, "s1", "s2"][i % 3]
+            pkw = dict(pkw0)
+            new = dict(pkw, d="A")
+            if ch == "dir":
+                if pname in ("default", "alt", "same"):
+                    new["tb"] = "fix"                   # the table path must not follow the directory
+                    pkw = dict(pkw, tb="fix")
+                new["d"] = "B"
+            elif ch == "path-same-text":
+                if pname in ("none", "stream", "fix", "alt"):
+                    continue
+                new["tb"] = "same" if pname == "default" else None
+            elif ch == "path-other-text":
+                new["tb"] = "fix" if pname == "alt" else "alt"
+                new.pop("tx", None)
+            elif ch == "to-none":
+                if pname == "none":
+                    continue
+                new["tb"] = "none"
+                new.pop("tx", None)
+            elif ch == "to-stream":
+                if pname == "stream":
+                    continue
+                new["tb"], new["tx"] = "stream", "t2"
+            elif ch == "stream-text":
+                if pname != "stream":
+                    continue
+                new["tx"] = "t3"
+            elif ch == "add-ext":
+                new["L"] = [["x1", "etc/x.txt"]]
+            ops = [_D(f1, n, v, s=s, **dict(pkw, d="A"))]
+            if i % 2:
+                ops.append(_D(f2, n, v, s=s, d="B"))                   # the other flavor shares the version file
+            if i % 4 == 0:
+                ops.append(_D(f1, n, VERSIONS[2], s=s, d="A"))          # another version next to it
+            ops.append(_D(f1, n, v, s=s, **new))                        # without force: refused, or no difference
+            ops.append(_D(f1, n, v, s=s, F=True, **new))                # forced: the new values are found
+            ops.append(_D(f1, n, v, s=s, **new))                        # again without force: nothing to do
+            ops.append(_D(f1, n, v, s=s, **dict(pkw, d="A")))           # back without force: refused unless equal
+            out.append({"flavors": [f1, f2], "mode": MODES[i % 3], "ops": ops,
+                        "fam": "forced/%s/%s" % (pname, ch)})
+    return out
+
+
+def gen_two_flavor_tags(rng):
+    """the same version declared under two flavors (one version file), a tag on the one, the other, or both, optionally
+    a second version of the first flavor that carries the tag instead; then tag removal / undeclare under either
+    flavor, with and without the version"""
+    out = []
+    i = 0
+    for tagging in ("mine", "theirs", "both"):
+        for layout in ("one-version", "tag-on-other-version"):
+            for kind in ("U-v", "U-none", "T-v", "T-none", "Tboth-v", "Tboth-none", "X-v", "X-none", "R", "A-other"):
+                for t in ("current", "stable"):
+                    i += 1
+                    f1, f2 = rng.choice(FLAVOR_PAIRS)
+                    n = NAMES[i % 3]
+                    s = [None, "s1", "s2", None][i % 4]
+                    v, w = "2.0", "1.0"
+                    ops = []
+                    if layout == "tag-on-other-version":
+                        ops.append(_D(f1, n, w, s=s, d="A"))
+                    ops.append(_D(f1, n, v, s=s, d="A"))
+                    ops.append(_D(f2, n, v, s=s, d="B"))
+                    if layout == "tag-on-other-version":
+                        ops.append(_op("A", f1, n, w, t=t, s=s))        # my tag sits on my other version
+                        ops.append(_op("A", f2, n, v, t=t, s=s))
+                        if tagging == "both":
+                            ops.append(_op("A", f2, n, v, t="beta", s=s))
+                            ops.append(_op("A", f1, n, v, t="beta", s=s))
+                    else:
+                        if tagging in ("mine", "both"):
+                            ops.append(_op("A", f1, n, v, t=t, s=s))
+                        if tagging in ("theirs", "both"):
+                            ops.append(_op("A", f2, n, v, t=t, s=s))
+                    who = f1 if i % 3 else f2
+                    vv = v if kind.endswith("-v") or kind in ("R", "A-other") else None
+                    if kind.startswith("U"):
+                        ops.append(_op("U", who, n, vv, t=t, s=s))
+                    elif kind.startswith("Tboth"):
+                        ops.append(_op("T", who, n, vv, t=t, s=s, both=True))
+                    elif kind.startswith("T"):
+                        ops.append(_op("T", who, n, vv, t=t, s=s, both=False))
+                    elif kind.startswith("X"):
+                        ops.append(_op("X", who, n, vv, s=s))
+                    elif kind == "R":
+                        ops.append(_op("R", who, n, v))
+                    else:
+                        ops.append(_op("A", who, n, v, t="beta" if t == "stable" else "stable", s=s))
+                    ops.append(_op("U", f1 if who == f2 else f2, n, v, t=t, s=s))   # and the other flavor afterwards
+                    out.append({"flavors": [f1, f2], "mode": MODES[i % 3], "ops": ops,
+                                "fam": "flavtag/%s/%s/%s" % (tagging, layout, kind)})
+    return out
+
+
+def gen_stack_choice(rng):
+    """where a declaration goes: -Z or not, product directory outside the stacks / inside the first / inside the second
+    stack, with no / the first / the second stack read-only"""
+    out = []
+    i = 0
+    for ro in ([], ["s1"], ["s2"]):
+        for d in ("A", "H1", "H2"):
+            for s in (None, "s1", "s2"):
+                i += 1
+                f1, f2 = rng.choice(FLAVOR_PAIRS)
+                n = NAMES[i % 3]
+                ops = [_D(f1, n, "1.0", s=s, d=d, t=[None, "stable"][i % 2]),
+                       _D(f1, n, "1.0", s=s, d=d, tb="stream", tx="t1", F=True),
+                       _D(f2, n, "2.0", d=d, tb=[None, "none"][i % 2]),
+                       _op("A", f1, n, "1.0", t="beta"),
+                       _op("U", f1, n, None, t="beta", s=s),
+                       _op("T", f1, n, None, t="stable", s=s, both=False),
+                       _op("X", f1, n, None, s=s)]
+                c = {"flavors": [f1, f2], "mode": "fork" if ro else MODES[i % 3], "ops": ops,
+                     "fam": "stack/ro=%s/dir=%s/Z=%s" % ("+".join(ro) or "-", d, s or "-")}
+                if ro:
+                    c["ro"] = ro
+                out.append(c)
+    return out
 
 
 # ------------------------------------------------------------------ model side
@@ -134,8 +373,9 @@ def op_line(o):
     k = o["k"]
     if k == "D":
         d = cdir(o["n"], o["v"], o["d"]) if o["d"] else None
-        tb = ctable(o["n"], o["v"], o["d"], "alt") if (o.get("tb") and o["d"]) else None
-        rest = [enc(o["n"]), enc(o["v"]), _o(d), _o(tb), _o(o["t"])]
+        tk, targ = table_request(o)
+        ext = "+".join(enc(csrc(x)) + ">" + enc(out) for x, out in (o.get("L") or [])) or "~"
+        rest = [enc(o["n"]), enc(o["v"]), _o(d), tk, _o(targ), _o(o["t"]), ext]
     elif k == "A":
         rest = [enc(o["t"]), enc(o["n"]), enc(o["v"])]
     elif k == "U":
@@ -152,16 +392,17 @@ def op_line(o):
 
 
 def hist_line(case, pinned=False):
+    """a request to the extended model (Model/DbExt.v); pinned is accepted for the callers of old and ignored"""
     univ = ";".join([",".join(NAMES), ",".join(TAGS), ",".join(case["flavors"])])
-    return "\t".join(["hist", "1" if pinned else "0", ",".join(STACKS), "|".join(op_line(o) for o in case["ops"]),
-                      univ])
+    return "\t".join(["xhist", ",".join(STACKS), ",".join(case.get("ro") or []), common.enc_env(static_texts(case)),
+                      "|".join(op_line(o) for o in case["ops"]), univ])
 
 
 def _lst(s):
     return sorted([common.dec(x) for x in item.split(",")] for item in s.split(";")) if s else []
 
 
-ERRCLASS = {"NotFound": "notfound", "Refused": "refused"}
+ERRCLASS = {"NotFound": "notfound", "Refused": "refused", "Undefined": "unmodelled"}
 
 
 def parse_model(line):
@@ -174,7 +415,8 @@ def parse_model(line):
         if oc.startswith("err:"):
             oc = ERRCLASS.get(oc[4:], "other:" + oc[4:])
         out.append({"out": oc, "decls": _lst(f[1]), "tags": _lst(f[2]), "dirs": _lst(f[3]), "vf": _lst(f[4]),
-                    "cf": _lst(f[5]), "resolve": _lst(f[6]), "neff": int(f[7])})
+                    "cf": _lst(f[5]), "resolve": _lst(f[6]), "xf": sorted([k, v] for k, v in common.dec_env(f[7])),
+                    "neff": int(f[8])})
     return out
 
 
@@ -199,25 +441,47 @@ def _quiet():
     os.dup2(dn, 2)
 
 
-def setup_world(root):
+def setup_world(root, ro=()):
     for s in STACKS + ["user"]:
         os.makedirs(os.path.join(root, s, "ups_db"), exist_ok=True)
+    os.makedirs(root + "/prod/tables", exist_ok=True)
+    os.makedirs(root + "/prod/extra", exist_ok=True)
+    for x, t in EXTRAS.items():
+        with open(root + csrc(x), "w") as fd:
+            fd.write(t)
     ensure_products(root)
+    for s in ro:                       # a read-only stack: neither the directory nor its database can be written
+        os.chmod(os.path.join(root, s, "ups_db"), 0o555)
+        os.chmod(os.path.join(root, s), 0o555)
+
+
+def unprotect(root):
+    for s in STACKS:
+        for p in (os.path.join(root, s), os.path.join(root, s, "ups_db")):
+            if os.path.isdir(p):
+                os.chmod(p, 0o755)
 
 
 def ensure_products(root):
     """product directories and table files are not database records: keep them all in place (remove deletes them)"""
     for n in NAMES:
         for v in VERSIONS:
-            for d in DIRVARS:
+            for d in DIRVARS_ALL:
                 p = root + cdir(n, v, d) + "/ups"
                 if not os.path.isdir(p):
-                    os.makedirs(p, exist_ok=True)
-                for tb in (None, "alt"):
+                    try:
+                        os.makedirs(p, exist_ok=True)
+                    except OSError:
+                        continue                                   # inside a read-only stack: made before the chmod
+                for tb in (None, "alt", "same"):
                     t = root + ctable(n, v, d, tb)
                     if not os.path.exists(t):
                         with open(t, "w") as fd:
-                            fd.write("# table %s\n" % ctable(n, v, d, tb))     # distinct content per path
+                            fd.write(ctext(n, v, d, tb))           # distinct text per path, same.table = default table
+            t = root + ctable(n, v, None, "fix")
+            if not os.path.exists(t):
+                with open(t, "w") as fd:
+                    fd.write(ctext(n, v, None, "fix"))
 
 
 def world_environ(root, flavor):
@@ -241,11 +505,25 @@ def do_op(x, root, o):
     x.noaction = bool(o["N"])
     stack = os.path.join(root, o["s"]) if o["s"] else None
     k = o["k"]
+    import atexit, signal, tempfile
+    made = []
+    real = (atexit.register, signal.signal, tempfile.mkstemp)
+
+    def mkstemp(*a, **kw):
+        r = real[2](*a, **kw)
+        made.append(r[1])
+        return r
+    # a table given as a stream goes through a temporary file that Eups.declare removes atexit / on SIGTERM: keep
+    # the pool worker's handlers and remove the file here
+    atexit.register, signal.signal, tempfile.mkstemp = (lambda *a, **kw: None), (lambda *a, **kw: None), mkstemp
     try:
         if k == "D":
+            import io
             d = root + cdir(o["n"], o["v"], o["d"]) if o["d"] else None
-            tb = root + ctable(o["n"], o["v"], o["d"], "alt") if (o.get("tb") and o["d"]) else None
-            x.declare(o["n"], o["v"], d, stack, tb, o["t"])
+            tk, targ = table_request(o)
+            tb = {"d": None, "n": "none"}.get(tk) if tk in "dn" else (root + targ if tk == "p" else io.StringIO(targ))
+            ext = [(root + csrc(xs), out) for xs, out in (o.get("L") or [])]
+            x.declare(o["n"], o["v"], d, stack, tb, o["t"], externalFileList=ext)
         elif k == "A":
             x.assignTag(o["t"], o["n"], o["v"], stack)
         elif k == "U":
@@ -266,6 +544,12 @@ def do_op(x, root, o):
     except Exception as ex:  # noqa
         return "other:" + type(ex).__name__
     finally:
+        atexit.register, signal.signal, tempfile.mkstemp = real
+        for f_ in made:
+            try:
+                os.unlink(f_)
+            except OSError:
+                pass
         x.force = False
         x.noaction = False
 
@@ -289,12 +573,18 @@ def read_state(root, flavors):
             return "None"
         return p[len(root):] if p.startswith(root + "/") else p
 
-    st = {"decls": [], "tags": [], "dirs": [], "vf": [], "cf": [], "resolve": []}
+    st = {"decls": [], "tags": [], "dirs": [], "vf": [], "cf": [], "resolve": [], "xf": []}
     for s in STACKS:
         dbp = os.path.join(root, s, "ups_db")
         db = e.db.Database(dbp)
         for n in sorted(os.listdir(dbp)):
             p = os.path.join(dbp, n)
+            if n in ALLFLAVORS and os.path.isdir(p):      # utils.extraDirPath: ups_db/<flavor>/<product>/<version>/...
+                for dp, _, fns in os.walk(p):
+                    for fn in fns:
+                        with open(os.path.join(dp, fn), errors="replace") as fd:
+                            st["xf"].append([canon(os.path.join(dp, fn)), fd.read()])
+                continue
             if not os.path.isdir(p):
                 st["dirs"].append([s, "FILE:" + n])
                 continue
@@ -321,18 +611,33 @@ def read_state(root, flavors):
     return st
 
 
+def _as_nobody(case):
+    os.setgroups([])
+    os.setgid(NOBODY)
+    os.setuid(NOBODY)
+    os.environ.pop("EUPS_VERIF_SCRATCH", None)
+    os.environ["TMPDIR"] = "/tmp"
+    return impl_history(dict(case, ro_child=True))
+
+
 def impl_history(case):
     """runs in a pool worker; returns the per-operation observations"""
     _eups()
+    if case.get("ro") and not case.get("ro_child") and os.getuid() == 0:
+        # permissions mean nothing to root: the whole history (operations and readers) runs under uid nobody
+        r = common.in_child(_as_nobody, case, timeout=600)
+        if r[0] != "ok":
+            raise RuntimeError("read-only history failed in the child: %r" % (r,))
+        return r[1]
     root = common.scratch_dir()
     saved = dict(os.environ)
     out = []
     try:
-        setup_world(root)
+        setup_world(root, case.get("ro") or [])
         insts = {}
         for o in case["ops"]:
             ensure_products(root)
-            if case["mode"] == "fork":
+            if case["mode"] == "fork" or case.get("ro"):
                 r = common.in_child(_child_op, root, o, timeout=120)
                 oc = r[1] if r[0] == "ok" else "other:child-%s" % (r[1] if len(r) > 1 else r[0],)
             elif case["mode"] == "proc":
@@ -345,6 +650,7 @@ def impl_history(case):
             st["out"] = oc
             out.append(st)
     finally:
+        unprotect(root)
         shutil.rmtree(root, ignore_errors=True)
         os.environ.clear()
         os.environ.update(saved)
@@ -383,9 +689,12 @@ def impl_one(case):
 # It is evaluated on what the fresh reader of the *implementation* reported before the operation and compared
 # with what it reports afterwards.
 
-def spec_step(decls, tags, o, path=STACKS):
-    """-> (outcome class, decls', tags').  decls: {(s,n,v,f): (dir, table)}, tags: {(s,n,t,f): v}"""
+def spec_step(decls, tags, o, path=STACKS, ro=(), xf=None, info=None):
+    """-> (outcome class, decls', tags').  decls: {(s,n,v,f): (dir, table)}, tags: {(s,n,t,f): v}; ro: read-only
+    stacks; xf: {path: text} of the copies below the databases as the reader saw them before the operation; info, when
+    given, receives what a declaration has to leave below its extra directory ("xdir", "copies": {path: text})"""
     decls, tags = dict(decls), dict(tags)
+    xf = xf or {}
     f, n = o["f"], o["n"]
     fls = [f, "generic"]
     roots = [o["s"]] if o["s"] else list(path)
@@ -426,29 +735,69 @@ def spec_step(decls, tags, o, path=STACKS):
     k = o["k"]
     if k == "D":
         v, t = o["v"], o["t"]
+        texts = static_texts({"ops": [o]})
+        text = lambda p: xf.get(p, texts.get(p))
         d = cdir(n, v, o["d"]) if o["d"] else None
-        tb = ctable(n, v, o["d"], "alt") if (o.get("tb") and o["d"]) else None
-        if t and (d is None or tb is None):
+        tk, targ = table_request(o)
+        if t and (d is None or tk == "d"):
             for fl in fls:                 # complete the request from the declaration that exists
                 s0 = exact(v, fl)
                 if s0:
                     od, otb = decls[(s0, n, v, fl)]
                     if d is None:
                         d = od
-                    if tb is None and d == od:
-                        tb = otb
+                    if tk == "d" and d == od:
+                        tk, targ = ("n", None) if otb == "none" else ("p", otb)
                     break
         if d is None:
             return unchanged("refused")
-        if tb is None:
+        # the stack it goes to: -Z; else the stack the directory lies in; else the first stack that can be written
+        if o["s"]:
+            if o["s"] in ro:
+                return unchanged("refused")
+            rd = tg = o["s"]
+        else:
+            home = next((s for s in path if d == "/" + s or d.startswith("/" + s + "/")), None)
+            w = next((s for s in path if s not in ro), None)
+            if w is None:
+                return unchanged("unmodelled")   # goes to the user data directory, which the check leaves out
+            rd = home or w
+            tg = home if (home and home not in ro) else w
+        xdir = extra_dir(tg, f, n, v)
+        copies = dict((out, EXTRAS[xs]) for xs, out in (o.get("L") or []))
+        again = False
+        if tk == "d":
             tb = d + "/ups/" + n + ".table"
-        tg = o["s"] or path[0]
+        elif tk == "p" and targ.startswith(xdir + "/"):
+            tb, again = targ, True                                  # the table kept with this declaration, once more
+            copies.update((p[len(xdir) + 1:], x) for p, x in xf.items() if p.startswith(xdir + "/ups/"))
+        elif tk == "p":
+            tb = targ
+        elif tk == "n":
+            tb = "none"
+        else:
+            tb = xdir + "/ups/" + n + ".table"                      # a stream: kept in the database
+            copies["ups/" + n + ".table"] = intern(targ)
+        if tk in "dp" and not again and text(tb) is None:
+            return unchanged("refused")    # no such table file
         if not t and not any(kk[1] == n and kk[3] in fls for kk in decls):
             t = "current"                  # first version that can be found of this product
-        old = decls.get((tg, n, v, f))
+        old = decls.get((rd, n, v, f))
+        if old is not None and rd != tg:
+            return unchanged("unmodelled")
         write = True
         if old is not None and not o["F"]:
-            if old == (d, tb):
+            od, otb = old
+            conflict = d != od
+            if tk in "dp" and not again:   # table files are the same when they are one file or hold the same text
+                conflict = conflict or not (tb == otb or (text(otb) is not None and text(tb) == text(otb)))
+            elif tk == "n":
+                conflict = conflict or otb != "none"
+            have = dict((p, x) for p, x in xf.items() if p.startswith(xdir + "/"))
+            if have:                       # the files kept with the declaration must be the same ones
+                conflict = conflict or any(have.get(xdir + "/" + out) != x for out, x in copies.items()) \
+                    or any(p[len(xdir) + 1:] not in copies for p in have)
+            if not conflict:
                 write = False
             elif t:
                 write = False              # only the tag is declared
@@ -456,6 +805,9 @@ def spec_step(decls, tags, o, path=STACKS):
                 return unchanged("refused")
         if o["N"]:
             return unchanged("ok")
+        if info is not None:
+            info["xdir"], info["copies"], info["target"] = xdir, dict((xdir + "/" + k_, x) for k_, x in copies.items()), tg
+            info["written"] = write
         if write:
             decls[(tg, n, v, f)] = (d, tb)
         if t:
@@ -485,6 +837,8 @@ def spec_step(decls, tags, o, path=STACKS):
             if not o["N"]:
                 del tags[(hit[0], n, t, f)]
             return "ok", decls, tags
+        if o["s"] in ro:
+            return unchanged("refused")    # no permission to touch the tags of that stack
         if not o["N"]:
             tags.pop((o["s"], n, t, f), None)
         return "ok", decls, tags
@@ -529,7 +883,11 @@ def state_maps(st):
     return decls, tags
 
 
-EMPTY = {"decls": [], "tags": [], "dirs": [], "vf": [], "cf": [], "resolve": [], "out": "ok"}
+EMPTY = {"decls": [], "tags": [], "dirs": [], "vf": [], "cf": [], "resolve": [], "xf": [], "out": "ok"}
+
+
+def _lines(x):
+    return [l.strip() for l in x.splitlines()]
 
 
 def oracle(case, obs):
@@ -540,7 +898,11 @@ def oracle(case, obs):
         d1, t1 = state_maps(st)
         if len(d1) != len(st["decls"]) or len(t1) != len(st["tags"]):
             return i, "reader-duplicate", None, "the reader lists a declaration or a tag twice"
-        eo, ed, et = spec_step(d0, t0, o)
+        x0, x1 = dict(map(tuple, prev["xf"])), dict(map(tuple, st["xf"]))
+        info = {}
+        eo, ed, et = spec_step(d0, t0, o, ro=case.get("ro") or [], xf=x0, info=info)
+        if eo == "unmodelled":
+            return None                    # outside what the check covers: the rest of the history is not judged
         # stated clauses first, so that the kind names the clause that broke
         for k, v in t1.items():
             if (k[0], k[1], v, k[3]) not in d1:
@@ -548,7 +910,7 @@ def oracle(case, obs):
         if st["out"] != eo:
             return i, "outcome", eo, "operation ended %s, the specification says %s" % (st["out"], eo)
         if o["k"] == "D" and eo == "ok" and not o["N"] and o["t"]:
-            stale = [k for k in t1 if k[1] == o["n"] and k[2] == o["t"] and k[3] == o["f"] and k[0] != (o["s"] or STACKS[0])]
+            stale = [k for k in t1 if k[1] == o["n"] and k[2] == o["t"] and k[3] == o["f"] and k[0] != info["target"]]
             if stale:
                 return i, "tag-not-moved", sorted(et.items()), \
                     "declare with tag %s left the tag assigned in %s as well" % (o["t"], stale[0][0])
@@ -560,6 +922,29 @@ def oracle(case, obs):
             kind = "frame-tag" if all(et.get(k) == t1.get(k) for k in set(et) | set(t1)
                                       if k[1] == o["n"] and k[3] == o["f"]) else "tags"
             return i, kind, sorted(et.items()), "tag assignments after the operation differ from the specification"
+        # a declaration is found with the table file it was declared with: the file it names is there, and what
+        # was handed over as a stream or as an external file is kept with it, line for line
+        if o["k"] == "D" and eo == "ok" and not o["N"]:
+            rec = d1.get((info["target"], o["n"], o["v"], o["f"]))
+            if rec is not None and rec[1] != "none" and info["written"]:
+                if rec[1] not in x1 and rec[1] not in static_texts({"ops": [o]}):
+                    return i, "table-missing", rec[1], "the declaration names a table file that does not exist"
+            if info["written"]:
+                for p_, x_ in info["copies"].items():
+                    if p_ not in x1 or _lines(x1[p_]) != _lines(x_):
+                        return i, "copy", [p_, x_], "a file handed over with the declaration is not kept with it"
+        # the files kept with other declarations are not touched (a declaration may rewrite its own, an undeclare
+        # may drop those of the version it removes)
+        for p_ in set(x0) | set(x1):
+            if x0.get(p_) != x1.get(p_):
+                mine = False
+                if o["k"] == "D" and info.get("xdir"):
+                    mine = p_.startswith(info["xdir"] + "/")
+                elif o["k"] in "XTR" and p_ in x0 and p_ not in x1:
+                    gone = [k for k in d0 if k not in d1]
+                    mine = any(p_.startswith(extra_dir(k[0], k[3], k[1], k[2]) + "/") for k in gone)
+                if not mine:
+                    return i, "frame-files", x0.get(p_), "file %s kept with another declaration changed" % p_
         # resolving a tag yields the first stack's assignment
         for n, t, f, s, v in st["resolve"]:
             exp = None
@@ -581,11 +966,13 @@ def oracle(case, obs):
 
 # ------------------------------------------------------------------ comparison, shrinking
 
-KEYS = ["out", "decls", "tags", "dirs", "vf", "cf", "resolve"]
+KEYS = ["out", "decls", "tags", "dirs", "vf", "cf", "resolve", "xf"]
 
 
 def first_diff(mres, ires):
     for i, (m, im) in enumerate(zip(mres, ires)):
+        if m["out"] == "unmodelled":
+            return None                    # Err Undefined of Model/DbExt.v: outside the model from here on
         for k in KEYS:
             if m[k] != im[k]:
                 return i, k
@@ -642,16 +1029,36 @@ def shrink_disagreement(ctx, case, pinned):
 
 
 def shape(case):
+    fam = case.get("fam") or "rand"
+    if fam != "rand":
+        return fam
     return "%s/%s/len%02d-%02d" % (case["mode"], "+".join(case["flavors"]), len(case["ops"]) // 5 * 5,
                                    len(case["ops"]) // 5 * 5 + 4)
+
+
+def decl_class(o, prev):
+    """histogram key of one declaration: how the table file is named, where the directory lies, force, and whether the
+    version was already declared for that flavor"""
+    redecl = any(r[1] == o["n"] and r[2] == o["v"] and r[3] == o["f"] for r in prev["decls"])
+    return "D/table=%s/dir=%s/Z=%s/force=%d/redeclare=%d/ext=%d" % (
+        o.get("tb") or "default", {None: "none", "A": "out", "B": "out"}.get(o["d"], "in-stack"),
+        "y" if o["s"] else "n", bool(o["F"]), redecl, bool(o.get("L")))
 
 
 def process(ctx, results, pinned=False, budget=[6]):
     for c, m, i, dis, orc in results:
         ctx.count(len(c["ops"]), key=shape(c),
                   nontrivial=hist_line(c) if any(st["decls"] for st in i) else None)
+        prev = EMPTY
         for o, st in zip(c["ops"], i):
             ctx.bump("op/%s/%s" % (o["k"], st["out"].split(":")[0]))
+            if o["k"] == "D":
+                ctx.bump(decl_class(o, prev) + "/" + st["out"].split(":")[0])
+            prev = st
+        if c.get("ro"):
+            ctx.bump("history/read-only=%s" % "+".join(c["ro"]))
+        if any(mm["out"] == "unmodelled" for mm in m):
+            ctx.bump("history/left-the-model")
         if dis is None:
             ctx.traces_validated += 1
         else:
@@ -684,7 +1091,12 @@ def corpus_cases():
 
 
 def configure(ctx):
-    ctx.rule = ("random histories of declare (new / same / conflicting / directory taken from the existing "
+    ctx.rule = ("directed families (every seed): forced and unforced redeclarations changing exactly one of directory / table "
+                "path with the same text / table path and text / table file none / text of an interned table / external "
+                "files, for every prior way of naming the table file; the same version under two flavors with a tag on "
+                "one, the other or both, then tag removal / undeclare / remove under either flavor; choice of the "
+                "target stack (-Z, product directory inside a stack, read-only stacks).  Then "
+                "random histories of declare (new / same / conflicting / directory taken from the existing "
                 "declaration; with and without tag, force, noaction), assignTag, unassignTag, undeclare, "
                 "undeclare --tag (with and without the version), remove over 3 products x 3 versions x 2 flavors "
                 "(Linux64+Darwin or Linux64+generic) x tags current/stable/beta x 2 stacks on EUPS_PATH, each target "
@@ -698,9 +1110,16 @@ def configure(ctx):
         "os.listdir order only affects the order of effects, not the resulting records"]
     ctx.assumptions = [
         "global tags only (current, stable, beta); no user tags, no tag:<name> pseudo-versions",
-        "product directories and table files lie outside the stacks, exist, and table files differ in content iff they differ in path",
-        "every ups_db is writable; no product is set up; fallback flavor list is the shipped one (flavor, generic)",
-        "a target stack that is not given means the first stack of EUPS_PATH for declare (the home-stack inference from the product directory is not modelled)"]
+        "product directories exist, outside the stacks or inside one of them (never <stack>/<flavor>/<product>/<version>, "
+        "so a missing productDir is never inferred from the path); table files exist; their texts differ iff their "
+        "paths do, except same.table, which repeats the text of the default table of its directory",
+        "tables given as a stream and external files (-L) are small texts; the copies below ups_db are read back by "
+        "the fresh reader and compared with Model/DbExt.v as a third map",
+        "read-only stacks (directory and ups_db mode 0555, history run under uid nobody) are read-only from the start "
+        "and therefore hold no declaration; some stack of EUPS_PATH is writable (the fall-back to the user data "
+        "directory and the writeableDB redirection of Eups.assignTag are outside the model: Err Undefined, counted "
+        "as history/left-the-model)",
+        "no product is set up; fallback flavor list is the shipped one (flavor, generic)"]
 
 
 def run(ctx):
@@ -709,9 +1128,21 @@ def run(ctx):
     try:
         corp = corpus_cases()
         process(ctx, evaluate(ctx, corp))
-        nh = ctx.size(600, 3000)
+        # directed families: the same shapes on every seed (the seed picks flavors, not shapes)
+        directed = gen_forced_redeclarations(ctx.rng) + gen_two_flavor_tags(ctx.rng) + gen_stack_choice(ctx.rng)
+        process(ctx, evaluate(ctx, directed))
+        nh = ctx.size(420, 3000)
         lo, hi = 5, ctx.size(25, 60)
-        cases = [gen_history(ctx.rng, ctx.rng.randint(lo, hi)) for _ in range(nh)]
+        rng = ctx.rng
+        cases = [gen_history(rng, rng.randint(lo, hi)) for _ in range(nh)]
+        # histories that lean towards tables kept in the database and external files, towards product directories
+        # inside the stacks, and histories with a read-only stack
+        cases += [gen_history(rng, rng.randint(4, 14), bias={"tb": 0.55, "L": 0.25, "home": 0.1}, fam="rand-interned")
+                  for _ in range(ctx.size(60, 400))]
+        cases += [gen_history(rng, rng.randint(4, 14), bias={"tb": 0.15, "home": 0.6}, fam="rand-home")
+                  for _ in range(ctx.size(40, 300))]
+        cases += [gen_history(rng, rng.randint(4, 10), bias={"tb": 0.2, "home": 0.4}, ro=rng.choice([["s1"], ["s1"], ["s2"]]),
+                              fam="rand-readonly") for _ in range(ctx.size(24, 200))]
         for c in cases[:2]:
             ctx.sample(c)
         for k in range(0, len(cases), 400):
